@@ -324,9 +324,9 @@ class LinComb:
             raise ValueError(str(self.value) + " is not properly divisible by " + str(other))
 
         if isinstance(other, LinComb):
-            if other.value == 0:
+            if other.value == 0 and not ignore_errors():
                 raise ValueError("Division by zero")
-            elif is_guard() and (self.value % other.value == 0):
+            elif is_guard() and other.value != 0 and (self.value % other.value == 0):
                 res = PrivVal(self.value // other.value)
             elif ignore_errors():
                 res = PrivVal(0)
@@ -367,8 +367,10 @@ class LinComb:
 
         if isinstance(divisor, LinComb):
             if divisor.value == 0:
-                raise ValueError("Division by zero")
-            quo = PrivVal(self.value // divisor.value)
+                if not ignore_errors(): raise ValueError("Division by zero")
+                quo = PrivVal(0)
+            else:
+                quo = PrivVal(self.value // divisor.value)
             res = quo * divisor
             rem = PrivVal(self.value - res.value)
 
